@@ -456,6 +456,62 @@ def real_sweep(chk, stats):
     return count
 
 
+def unseeded_and_long_resume(chk, stats):
+    """(a) A calibrator built WITHOUT a seed cannot be re-run, but it can be forked: after a checkpoint the live object and
+    the object restored from the folder hold the same generator state, so continuing either gives bitwise the same history.
+    (b) A history of more than 64 rows in batches of several rows at the stop (sorting / grouping routines change algorithm
+    with the table size; rows of one batch are ties for any key but the row number)."""
+    import contextlib
+    import io
+
+    import numpy as np
+    from black_it.calibrator import Calibrator
+
+    rng = chk.rng
+    count = 0
+    for j in range(3 if chk.tier == "quick" else 20):
+        kinds = [("halton", 3), (rng.choice(["uniform", "rseq", "bestbatch"]), 2), (rng.choice(["uniform", "pso", "cors"]), 2)]
+        spec = {"kinds": kinds, "nparams": rng.randint(1, 3), "E": rng.randint(1, 2), "seed": None,
+                "loss": rng.choice(["minkowski", "msm", "fourier"]), "rl": False}
+        folder = rl.scratch(f"c05_unseeded_{j}")
+        a, b = rng.randint(1, 3), rng.randint(1, 3)
+        with contextlib.redirect_stdout(io.StringIO()), np.errstate(all="ignore"):
+            live = rl.build(spec, folder=None, ctor_seed_shift=None)
+            live.calibrate(a)
+            live.create_checkpoint(str(folder))
+            restored = Calibrator.restore_from_checkpoint(str(folder), model=rl.MODELS["ar1_model"])
+            restored.saving_folder = None
+            live.calibrate(b)
+            restored.calibrate(b)
+        d = rl.diff(rl.history(live), rl.history(restored))
+        shutil.rmtree(folder, ignore_errors=True)
+        count += 1
+        stats["unseeded fork: live vs restored"] += 1
+        if d:
+            chk.violation({"kind": "oracle", "clause": "real-resume-differs", "boundary": "restore", "with": "no-seed"},
+                          {"failed": "oracle:resume", "detail": f"calibrator without a seed, line-up {kinds}: after calibrate({a}) + "
+                           f"checkpoint, the restored object and the live one continue differently over calibrate({b}): {d}",
+                           "case": {"unseeded": {"spec": spec, "a": a, "b": b}}})
+    for j in range(2 if chk.tier == "quick" else 10):
+        bs = rng.randint(2, 5)
+        kinds = [("halton", bs), ("uniform", bs), ("rseq", bs)]
+        spec = {"kinds": kinds, "nparams": 2, "E": 1, "seed": rng.below(2**31), "loss": "minkowski", "rl": False}
+        first = -(-(65 + rng.randint(0, 40)) // bs)          # batches before the stop: more than 64 rows
+        more = rng.randint(1, 3)
+        folder = rl.scratch(f"c05_long_{j}")
+        twin = rl.run_segments(spec, [first + more], [])
+        h = rl.run_segments(spec, [first, more], ["restore"], folder=str(folder))
+        shutil.rmtree(folder, ignore_errors=True)
+        count += 1
+        stats["long history (>64 rows) resumes"] += 1
+        d = rl.diff(twin, h)
+        if d:
+            chk.violation({"kind": "oracle", "clause": "real-resume-differs", "boundary": "restore", "with": "long-history"},
+                          {"failed": "oracle:resume", "detail": f"{first} batches of {bs} rows ({first * bs} rows), restore, {more} more: differs in {d}",
+                           "case": {"spec": spec, "segments": [first, more], "boundaries": ["restore"]}})
+    return count
+
+
 def run(chk, replay=None):
     from collections import Counter
 
@@ -495,6 +551,7 @@ def run(chk, replay=None):
     n_tok += early_stop_resume(chk, extra) if not replay else 0
     n_tok += restore_transparency(chk, extra) if not replay else 0
     n_real += real_sweep(chk, extra) if not replay else 0
+    n_real += unseeded_and_long_resume(chk, extra) if not replay else 0
     stats.update(extra)
     cov = {
         "evaluations": len(cases) + n_tok + n_real, "distinct": len(keys) + n_tok + n_real,
